@@ -100,7 +100,7 @@ func lowOrderCandidates(size int) [][]byte {
 		p.Sub(p, big.NewInt(1))
 	}
 	for _, d := range []int64{-1, 0, 1} {
-		out = append(out, leBytes(big.NewInt(1+d), size))                     // 0, 1, 2 (2 is not low order: control)
+		out = append(out, leBytes(big.NewInt(1+d), size))                    // 0, 1, 2 (2 is not low order: control)
 		out = append(out, leBytes(new(big.Int).Add(p, big.NewInt(d)), size)) // p-1, p, p+1
 	}
 	if size == 32 {
